@@ -500,6 +500,22 @@ pub async fn run_history(hi: usize, spec: &HSpec, seed: u64, thorough: bool, emi
         }
     }
 
+    // the write policy against the model's `journalOf`: the blocks as delivered, then the names written, in order
+    if modelled && h.panicked.is_none() {
+        for r in &h.recs {
+            if let Some((ts, k)) = name_key(&r.block.get_file_name()) {
+                let onp = validates_without_parent(&r.block, &Cfg::new(100, HEARTBEAT, 50)).await;
+                emit("S", &format!("d {} {} {}", ts, k, project(&r.block, true, onp, &mut proj.ids)));
+            }
+        }
+        emit("O", &format!("journal h{}", hi));
+        let names: Vec<String> = h.journal.iter().filter_map(|o| match o {
+            DiskOp::Write(n, _) => name_key(n).map(|(ts, k)| format!("{}:{}", ts, k)),
+            _ => None,
+        }).collect();
+        emit("I", &format!("writes={}", names.join(",")));
+    }
+
     // ---------------------------------------------------------------- clean restart
     {
         let files = disk_at(&h.journal, h.journal.len());
